@@ -84,62 +84,80 @@ Proof.
     + intros i Hi. rewrite forallb_forall in H3. specialize (H3 i Hi). lia.
 Qed.
 
-Theorem assign_correct n e :
+(* generic in the width map wd' used on the Verilog side: it only has to agree
+   with the netlist widths on the wires of this net (the module's declarations do) *)
+Theorem assign_correct_gen wd' n e :
+  (forall x, In x (ndest n :: nargs n) -> wd' x = wd x) ->
   emit_expr nl n = Some e ->
   vrules nl n = true ->
   (forall a, In a (nargs n) -> inrange (env a) (wd a)) ->
   exists r, op_spec (nop n) (argvals nl env n) = Some r
-            /\ vassign wd env (ndest n) e = r mod 2 ^ wd (ndest n).
+            /\ vassign wd' env (ndest n) e = r mod 2 ^ wd (ndest n).
 Proof.
-  intros He Hr Hin. destruct (vrules_parts n Hr) as [Hd [Hw Hop]].
+  intros Hwd He Hr Hin. destruct (vrules_parts n Hr) as [Hd [Hw Hop]].
   destruct n as [o args d]. unfold emit_expr in He. unfold argvals.
   cbn [nop nargs ndest] in *.
+  assert (Hd' : wd' d = wd d) by (apply Hwd; left; reflexivity).
+  assert (Ha' : forall a, In a args -> wd' a = wd a) by (intros a Ha; apply Hwd; right; assumption).
   destruct o.
   - (* w *) destruct args as [|a [|]]; try discriminate. injection He as <-.
-    eexists; split; [reflexivity|]. reflexivity.
+    eexists; split; [reflexivity|]. unfold vassign. cbn [veval vwidth]. rewrite Hd'. reflexivity.
   - (* ~ *) destruct args as [|a [|]]; try discriminate. injection He as <-.
     eexists; split; [reflexivity|]. unfold vassign. cbn [veval vwidth].
-    unfold arg in Hop. cbn [nargs nth] in Hop. rewrite Z.max_r by lia. reflexivity.
+    unfold arg in Hop. cbn [nargs nth] in Hop. rewrite Hd', (Ha' a) by (simpl; auto).
+    rewrite Z.max_r by lia. reflexivity.
   - (* & *) destruct args as [|a [|b [|]]]; try discriminate. injection He as <-.
-    eexists; split; [reflexivity|]. unfold vassign. cbn [veval vwidth bin_val]. apply mod_mod_pow2; lia.
+    eexists; split; [reflexivity|]. unfold vassign. cbn [veval vwidth bin_val]. rewrite Hd'. apply mod_mod_pow2; lia.
   - destruct args as [|a [|b [|]]]; try discriminate. injection He as <-.
-    eexists; split; [reflexivity|]. unfold vassign. cbn [veval vwidth bin_val]. apply mod_mod_pow2; lia.
+    eexists; split; [reflexivity|]. unfold vassign. cbn [veval vwidth bin_val]. rewrite Hd'. apply mod_mod_pow2; lia.
   - destruct args as [|a [|b [|]]]; try discriminate. injection He as <-.
-    eexists; split; [reflexivity|]. unfold vassign. cbn [veval vwidth bin_val]. apply mod_mod_pow2; lia.
+    eexists; split; [reflexivity|]. unfold vassign. cbn [veval vwidth bin_val]. rewrite Hd'. apply mod_mod_pow2; lia.
   - (* nand *) destruct args as [|a [|b [|]]]; discriminate.
   - (* + *) destruct args as [|a [|b [|]]]; try discriminate. injection He as <-.
-    eexists; split; [reflexivity|]. unfold vassign. cbn [veval vwidth bin_val]. apply mod_mod_pow2; lia.
+    eexists; split; [reflexivity|]. unfold vassign. cbn [veval vwidth bin_val]. rewrite Hd'. apply mod_mod_pow2; lia.
   - (* - *) destruct args as [|a [|b [|]]]; try discriminate. injection He as <-.
-    eexists; split; [reflexivity|]. unfold vassign. cbn [veval vwidth bin_val]. apply mod_mod_pow2; lia.
+    eexists; split; [reflexivity|]. unfold vassign. cbn [veval vwidth bin_val]. rewrite Hd'. apply mod_mod_pow2; lia.
   - (* * *) destruct args as [|a [|b [|]]]; try discriminate. injection He as <-.
-    eexists; split; [reflexivity|]. unfold vassign. cbn [veval vwidth bin_val]. apply mod_mod_pow2; lia.
+    eexists; split; [reflexivity|]. unfold vassign. cbn [veval vwidth bin_val]. rewrite Hd'. apply mod_mod_pow2; lia.
   - (* < *) destruct args as [|a [|b [|]]]; try discriminate. injection He as <-.
-    eexists; split; [reflexivity|]. reflexivity.
+    eexists; split; [reflexivity|]. unfold vassign. cbn [veval vwidth cmp_val map fst snd]. rewrite Hd'. reflexivity.
   - (* > *) destruct args as [|a [|b [|]]]; try discriminate. injection He as <-.
     eexists; split; [reflexivity|]. unfold vassign. cbn [veval vwidth cmp_val map fst snd].
-    rewrite Z.gtb_ltb. reflexivity.
+    rewrite Z.gtb_ltb, Hd'. reflexivity.
   - (* == *) destruct args as [|a [|b [|]]]; try discriminate. injection He as <-.
-    eexists; split; [reflexivity|]. reflexivity.
+    eexists; split; [reflexivity|]. unfold vassign. cbn [veval vwidth cmp_val map fst snd]. rewrite Hd'. reflexivity.
   - (* mux *) destruct args as [|s [|a [|b [|]]]]; try discriminate. injection He as <-.
-    eexists; split; [reflexivity|]. reflexivity.
+    eexists; split; [reflexivity|]. unfold vassign. cbn [veval vwidth]. rewrite Hd'. reflexivity.
   - (* concat *) injection He as <-.
     eexists; split; [reflexivity|]. unfold vassign. cbn [veval vwidth].
-    rewrite map_map. cbn [veval vwidth]. rewrite cat_val_concat_spec; [reflexivity|].
-    intros p Hp. apply in_map_iff in Hp. destruct Hp as [a [<- Ha]]. cbn [snd]. apply Hw. assumption.
+    rewrite map_map. cbn [veval vwidth]. rewrite Hd'.
+    rewrite (map_ext_in _ (fun a => (env a, wd a))).
+    + rewrite cat_val_concat_spec; [reflexivity|].
+      intros p Hp. apply in_map_iff in Hp. destruct Hp as [a [<- Ha]]. cbn [snd]. apply Hw. assumption.
+    + intros a Ha. rewrite (Ha' a Ha). reflexivity.
   - (* select *) destruct args as [|a [|]]; try discriminate. injection He as <-.
     eexists; split; [reflexivity|]. unfold vassign. cbn [veval vwidth].
-    rewrite map_map. unfold arg in Hop. cbn [nargs nth] in Hop.
+    rewrite map_map. unfold arg in Hop. cbn [nargs nth] in Hop. rewrite Hd'.
     rewrite (map_ext_in _ (fun i => (b2z (Z.testbit (env a) i), 1))).
     + rewrite cat_val_select. reflexivity.
     + intros i Hi. apply in_rev in Hi. specialize (Hop i Hi).
       destruct (1 <? wd a) eqn:E; cbn [veval vwidth]; [reflexivity|].
-      assert (wd a = 1) by lia. assert (i = 0) by lia. subst i.
+      assert (H : wd a = 1) by lia. assert (i = 0) by lia. subst i.
       assert (Ha : inrange (env a) (wd a)) by (apply Hin; left; reflexivity).
+      rewrite (Ha' a) by (simpl; auto).
       rewrite H in *. unfold inrange in Ha. change (2 ^ 1) with 2 in Ha.
       assert (env a = 0 \/ env a = 1) as [->| ->] by lia; reflexivity.
   - (* r *) destruct args as [|a [|]]; discriminate.
   - destruct args as [|a [|]]; discriminate.
   - destruct args as [|a [|b [|c [|]]]]; discriminate.
 Qed.
+
+Theorem assign_correct n e :
+  emit_expr nl n = Some e ->
+  vrules nl n = true ->
+  (forall a, In a (nargs n) -> inrange (env a) (wd a)) ->
+  exists r, op_spec (nop n) (argvals nl env n) = Some r
+            /\ vassign wd env (ndest n) e = r mod 2 ^ wd (ndest n).
+Proof. apply assign_correct_gen. reflexivity. Qed.
 
 End Assign.
